@@ -182,6 +182,8 @@ def check(ctx: Ctx) -> None:
     check_options_forwarded(ctx, 'C19.k', [SH, CE], floor=30)
     from ..idioms import check_no_stale_derived
     check_no_stale_derived(ctx, 'C19.l', [SH, CE], floor=15)
+    from ..idioms import check_shared_memos
+    check_shared_memos(ctx, 'C19.m', [SH, CE], floor=10)
     _check_snapshots(ctx)
     _check_back_rotation(ctx)
     _check_add_user(ctx)
